@@ -28,7 +28,8 @@ A_HIST = [
 ]
 
 PROPERTIES = {
-    "C01": {"level": "exploration", "legs": [hist("C01")], "assumptions": A_HIST},
+    "C01": {"level": "exploration", "legs": [hist("C01"), e2e("c01-dhcp-e2e", "c01-e2e", "e2e_dhcp.py", ["--prop", "C01"])],
+            "assumptions": A_HIST + [A_E2E]},
     "C02": {"level": "exploration", "legs": [vh("c02-address-sets-inproc", "c02", "c02")],
             "assumptions": ["the documented address set D is computed by model/policy.rs, written from erbium.conf(5)",
                             "pools larger than 64 addresses are judged by size and boundary membership, not drained"]},
@@ -39,8 +40,8 @@ PROPERTIES = {
     "C04": {"level": "exploration", "legs": [vh("c04-size-inproc", "c04", "c04"),
                                              e2e("c04-relay-e2e", "c04-e2e", "e2e_relay.py", ["--prop", "C04"])],
             "assumptions": ["reference DNS codec is the trusted base", A_E2E]},
-    "C05": {"level": "exploration", "legs": [vh("c05-decoders-inproc", "c05", "c05")],
-            "assumptions": ["harness built with overflow-checks and debug-assertions on; panics observed through a panic hook; 120 s watchdog per call"]},
+    "C05": {"level": "exploration", "legs": [vh("c05-decoders-inproc", "c05", "c05"), e2e("c05-services-e2e", "c05-e2e", "e2e_c05.py")],
+            "assumptions": [A_E2E, "harness built with overflow-checks and debug-assertions on; panics observed through a panic hook; 120 s watchdog per call"]},
     "C06": {"level": "exploration", "legs": [vh("c06-cache-inproc", "c06", "c06")],
             "assumptions": ["the cache is driven through hook H3 (same key construction, lifetime, insert, lookup and expiry code as handle_query) under tokio's paused clock"]},
     "C07": {"level": "exploration", "legs": [e2e("c07-exactly-one-reply-e2e", "c07-e2e", "e2e_c07.py")],
@@ -52,8 +53,8 @@ PROPERTIES = {
     "C10": {"level": "exploration", "legs": [hist("C10")], "assumptions": A_HIST},
     "C11": {"level": "exploration", "legs": [vh("c11-policy-model-inproc", "c11", "c11")],
             "assumptions": ["independent model of erbium.conf(5) in model/policy.rs; option 121, policy-level $self4, match-interface and empty list values are unconstrained"]},
-    "C12": {"level": "exploration", "legs": [vh("c12-wire-inproc", "c12", "c12")],
-            "assumptions": ["reference DHCP and Ethernet/IPv4/UDP codecs written from the RFCs are the trusted base"]},
+    "C12": {"level": "exploration", "legs": [vh("c12-wire-inproc", "c12", "c12"), e2e("c12-dhcp-e2e", "c12-e2e", "e2e_dhcp.py", ["--prop", "C12"])],
+            "assumptions": [A_E2E, "reference DHCP and Ethernet/IPv4/UDP codecs written from the RFCs are the trusted base"]},
     "C13": {"level": "exploration", "legs": [hist("C13")], "assumptions": A_HIST},
     "C14": {"level": "exploration", "legs": [vh("c14-roundtrip-inproc", "c14", "c14")],
             "assumptions": ["reference DNS codec with pointer validation is the trusted base"]},
@@ -63,7 +64,9 @@ PROPERTIES = {
             "assumptions": [A_E2E, "a source hashes to two buckets, so the per-source bound checked end to end is 2B + 2R(dt+1) plus one maximal charge of slack", "burst B and rate R are read from the code's constants (hook H3)"]},
     "C17": {"level": "exploration", "legs": [vh("c17-ra-inproc", "c17", "c17")],
             "assumptions": ["RA decoder written from RFC 4861/8106/8781/8910 is the trusted base; RDNSS/DNSSL lifetime when not configured is unconstrained"]},
-    "C18": {"level": "exploration", "legs": [hist("C18")], "assumptions": A_HIST},
+    "C18": {"level": "fault_enumeration", "legs": [hist("C18"), e2e("c18-crash-points-e2e", "c18-e2e", "e2e_c18.py", tq=1200, tt=10800)],
+            "assumptions": A_HIST + [A_E2E, "crash = SIGKILL of the process at syscall granularity on tmpfs; power loss and torn sector writes are out of reach",
+                                     "kill points are enumerated per syscall name by invocation index; the kernel's scheduling decides which thread issues the N-th call"]},
     "C19": {"level": "exploration", "legs": [vh("c19-config-inproc", "c19", "c19", 900, 7200)],
             "assumptions": ["pools beyond 2^20 addresses (IPv4 prefixes /1../11, wide ranges) are skipped and counted: memory exhaustion is not what the property names"]},
     "C20": {"level": "exploration", "legs": [hist("C20"), e2e("c20-listing-gauges-e2e", "c20-e2e", "e2e_c20.py")],
